@@ -124,7 +124,7 @@ Proof. destruct p as [[segs last]|]; [|reflexivity]. intros [Hs Hl]. apply path_
 Section AuthWf.
 Variable hp hpo : list N -> result host.
 Variable hd : host -> list N.
-Hypothesis HOK : HostOK hp hpo hd.
+Hypothesis HOK : HostRT hp hpo hd.
 
 Lemma host_head st h pt X : host_ok hp hpo hd st h -> (h = HDomain [] -> pt = None) -> tail_ok X ->
   head_is (hd h ++ port_text pt ++ X) 58 = false.
